@@ -757,6 +757,9 @@ class GeometryOps(Harness):
                     out.append(dict(genome=g, ivs=ivs, op=op))
                 if len(ivs) == 2 and ivs[0] != ivs[1]:
                     out.append(dict(genome=g, ivs=ivs[::-1], op="sort"))
+        # a genome whose order is not the string order of its names (chr1, chr2, chr10): sorting follows the genome
+        for ivs in ([2, 1], [1, 2], [2, 0]) + (([2, 1, 0], [1, 2, 1]) if tier == "thorough" else ()):
+            out.append(dict(genome="g3x", ivs=ivs, op="sort"))
         return out
 
     def inputs(self, skel, V):
@@ -1045,6 +1048,64 @@ class MapLocations(Harness):
 
 
 
+class TrackByName(Harness):
+    """track[chromosome name]: the values of that chromosome of THIS track, also when a track over another genome with the same
+    chromosome names (other sizes) was indexed by name earlier in the process"""
+    name = "track_by_name"
+    functions = ("GenomicArrayGlobal.__getitem__(str)/extract_chromsome", "GlobalOffset.get_offset/get_size")
+    bounds = {"quick": "genomes {chr1:3,chr2:2} and {chr1:2,chr10:1,chr2:3}; 1-2 bedGraph records with symbolic boundaries and values; with and "
+                       "without a prior genome {chr1:5, chr2:4, chr10:2} whose track was indexed by every name",
+              "thorough": "3 records"}
+
+    def skeletons(self, tier, seed):
+        out = []
+        for g, runsets in (("g2", [[0], [0, 1], [1, 1]]), ("g3", [[0, 2], [1]])):
+            for runs in runsets + ([[0, 0, 1]] if tier == "thorough" and g == "g2" else []):
+                for prior in (False, True):
+                    out.append(dict(genome=g, runs=runs, prior=prior))
+        return out
+
+    def inputs(self, skel, V):
+        from checks.C09 import GENOMES as G9, declare_track
+        declare_track(V, skel["runs"], list(G9[skel["genome"]].values()), "a")
+
+    def call(self, skel, x, ctx):
+        import bionumpy as bnp
+        from bionumpy.datatypes import BedGraph
+        from checks.C09 import GENOMES as G9, make_track
+        genome = G9[skel["genome"]]
+        if skel["prior"]:
+            other = bnp.Genome.from_dict({"chr1": 5, "chr2": 4, "chr10": 2})
+            t0 = other.get_track(BedGraph(["chr1", "chr2", "chr10"], [1, 0, 0], [5, 3, 2], [7, 8, 9]))
+            seen = {nm: t0[nm].to_array().tolist() for nm in ("chr1", "chr2", "chr10")}
+            assert seen == {"chr1": [0, 7, 7, 7, 7], "chr2": [8, 8, 8, 0], "chr10": [9, 9]}, seen
+        A = make_track(ctx, x, skel["runs"], genome, "a")
+        return dict(dense={nm: ctx.lst(A[nm].to_array()) for nm in genome})
+
+    def post(self, skel, x, out):
+        if isinstance(out, Exc):
+            return False
+        from checks.C09 import GENOMES as G9, dense_terms
+        genome = G9[skel["genome"]]
+        exp = dense_terms(x, skel["runs"], genome, "a")
+        conj = []
+        for nm in genome:
+            if len(out["dense"][nm]) != genome[nm]:
+                return False
+            conj += [TI(g) == e for g, e in zip(out["dense"][nm], exp[nm])]
+        return z_and(conj)
+
+    def oracle(self, skel, cx, cout):
+        if isinstance(cout, Exc):
+            return f"track[name] raised {cout}"
+        from checks.C09 import GENOMES as G9, dense_py
+        genome = G9[skel["genome"]]
+        exp = dense_py(cx, skel["runs"], genome, "a")
+        got = {nm: [int(v) for v in col] for nm, col in cout["dense"].items()}
+        return None if got == exp else (f"track over {genome}{' (after a track over another genome with the same names was indexed by name)' if skel['prior'] else ''}: "
+                                        f"track[name] = {got}, the chromosomes' values are {exp}")
+
+
 from checks.C11 import Pipelines as _Pipelines, chunkings as _chunkings
 
 
@@ -1065,4 +1126,4 @@ class StreamedChromosomes(_Pipelines):
                 for what in ("pileup", "mask")]
 
 
-HARNESSES = [Coords(), GenomeOps(), Binned(), ValuesUnderIntervals(), GeometryOps(), MapLocations(), StreamedChromosomes()]
+HARNESSES = [Coords(), GenomeOps(), Binned(), ValuesUnderIntervals(), GeometryOps(), MapLocations(), TrackByName(), StreamedChromosomes()]
